@@ -85,6 +85,8 @@ void operator delete[](void* p, size_t n, std::align_val_t a) noexcept { operato
 
 // ------------------------------------------------------------------ recording page allocator
 struct RecPages : public PageAllocator {
+  size_t base_off {0};   // offset of this allocator's page region in the arena
+  int tag {1};
   size_t psize {4096};
   size_t shuffle {0};
   size_t count {0};
@@ -102,7 +104,7 @@ struct RecPages : public PageAllocator {
     if (shuffle == 0) s = k % nslots;
     else if (shuffle == 1) s = (nslots - 1 - k % nslots);
     else s = (k * (2 * shuffle + 1) + shuffle) % nslots;
-    return g_base + s * psize;
+    return g_base + base_off + s * psize;
   }
   void allocate(void** pages, size_t n) noexcept override {
     std::lock_guard<std::mutex> l(g_mu);
@@ -127,7 +129,7 @@ struct RecPages : public PageAllocator {
       auto it = live.find(p);
       if (it == live.end()) {
         g_bad_free = true;
-        detail("page " + num(nom(p)) + " returned to the page allocator but not lent out (double or wild free)");
+        detail("page " + num(nom(p)) + " returned to page allocator #" + num(tag) + " which has not lent it out (double free, wild free or another allocator's page)");
       } else {
         live.erase(it);
         memset(p, 0xDD, psize);
@@ -145,15 +147,17 @@ struct RecUp : public std::pmr::memory_resource {
   std::map<char*, Blk> live;
   std::vector<std::pair<char*, Blk>> all;
   size_t cur {0};
+  size_t up_off {UP_OFFSET}, up_limit {UP_OFFSET + (480ull << 20)};
+  int tag {1};
   std::vector<long long> last;
   bool threadsafe {false};
   void* do_allocate(size_t bytes, size_t align) override {
     std::lock_guard<std::mutex> l(g_mu);
     size_t a = std::max<size_t>(align, 1);
-    size_t off = (UP_OFFSET + cur + a - 1) / a * a;     // g_base is 2^26 aligned
+    size_t off = (up_off + cur + a - 1) / a * a;     // g_base is 2^26 aligned
     char* p = g_base + off;
-    cur = off - UP_OFFSET + bytes + 64;
-    if (UP_OFFSET + cur >= ARENA) { detail("upstream arena exhausted"); abort(); }
+    cur = off - up_off + bytes + 64;
+    if (up_off + cur >= up_limit) { detail("upstream arena exhausted"); abort(); }
     memset(p, 0xEE, bytes);
     live[p] = Blk {bytes, align};
     all.push_back({p, Blk {bytes, align}});
@@ -169,7 +173,7 @@ struct RecUp : public std::pmr::memory_resource {
     auto it = live.find(p);
     if (it == live.end()) {
       g_bad_upfree = true;
-      detail("up", "block " + num(nom(p)) + " returned upstream but not lent out (double or wild free)");
+      detail("up", "block " + num(nom(p)) + " returned to upstream #" + num(tag) + " which has not lent it out (double free, wild free or another upstream's block)");
       return;
     }
     if (it->second.bytes != bytes || it->second.align != align) {
@@ -187,6 +191,8 @@ struct RecUp : public std::pmr::memory_resource {
 
 static RecPages g_pages;
 static RecUp g_up;
+static RecPages g_pages2;   // second, independent pair for the two-resource cases
+static RecUp g_up2;
 
 // ------------------------------------------------------------------ destructors
 static std::vector<std::pair<long long, int>> g_dtor_calls;   // since last release
@@ -220,9 +226,10 @@ struct Mon {
 static bool owned_by(const Block& b) {
   if (b.bytes == 0) return true;
   if (!in_arena(b.p)) return false;
-  size_t P = g_pages.psize;
-  for (auto& kv : g_pages.live) if (b.p >= kv.first && b.p + b.bytes <= kv.first + P) return true;
-  for (auto& kv : g_up.live) if (b.p >= kv.first && b.p + b.bytes <= kv.first + kv.second.bytes) return true;
+  for (RecPages* rp : {&g_pages, &g_pages2})
+    for (auto& kv : rp->live) if (b.p >= kv.first && b.p + b.bytes <= kv.first + rp->psize) return true;
+  for (RecUp* ru : {&g_up, &g_up2})
+    for (auto& kv : ru->live) if (b.p >= kv.first && b.p + b.bytes <= kv.first + kv.second.bytes) return true;
   return false;
 }
 
@@ -398,6 +405,107 @@ static void run_exclusive(const std::string& id, std::istringstream& in) {
          out.c_str(), m.align, m.owned, m.disjoint, m.book, m.stable, m.dtor, m.pages, m.up, m.zero, m.contains, m.reuse, g_detail.c_str());
 }
 
+// ------------------------------------------------------------------ two resources, two allocator pairs, move assignment
+//   <id> Y <PA> <PB> <destroy b first 0|1> <op> ...   ops: a:A:<bytes>:<align>  a:G  a:C:<k>  a:R  (same with b)
+//   X = `a = std::move(b)`   Z = `b = std::move(a)`
+static void run_pair(const std::string& id, std::istringstream& in) {
+  size_t PA, PB, order;
+  in >> PA >> PB >> order;
+  g_pages.reset(); g_up.reset(); g_pages2.reset(); g_up2.reset();
+  g_pages.psize = PA; g_pages.shuffle = 0; g_pages.threadsafe = false; g_up.threadsafe = false;
+  g_pages2.psize = PB; g_pages2.shuffle = 1; g_pages2.threadsafe = false; g_up2.threadsafe = false;
+  g_pages2.base_off = PAGE_REGION; g_pages2.tag = 2;
+  g_up2.up_off = UP_OFFSET + (480ull << 20); g_up2.up_limit = ARENA; g_up2.tag = 2;
+  g_bad_free = false; g_bad_upfree = false; g_wrong_upstream = false; g_details.clear(); g_detail.clear(); g_dtor_calls.clear();
+  Mon m;
+  struct Content { std::vector<Block> live; std::vector<std::pair<long long, int>> registered; };
+  Content content[2];
+  int hold[2] = {0, 1};              // which content object a (0) / b (1) currently holds
+  Excl* obj[2] = {new Excl, new Excl};
+  obj[0]->set_page_allocator(g_pages); obj[0]->set_upstream(g_up);
+  obj[1]->set_page_allocator(g_pages2); obj[1]->set_upstream(g_up2);
+  const char* nm[2] = {"a", "b"};
+  std::string op;
+  int nblocks = 0, moves = 0, ops = 0;
+  long long tok = 2000;
+  auto check_all = [&](const std::string& after) {
+    for (int x = 0; x < 2; ++x)
+      for (auto& b : content[hold[x]].live) {
+        if (!owned_by(b)) { m.owned = false; detail("owned", std::string("block ") + num(nom(b.p)) + " of resource " + nm[x] + " is no longer inside memory lent out by any allocator after " + after); continue; }
+        if (!intact(b)) { m.stable = false; detail("stable", std::string("block ") + num(nom(b.p)) + "+" + num((long long)b.bytes) + " of resource " + nm[x] + " lost its contents after " + after); }
+        if (b.bytes && (!obj[x]->contains(b.p) || !obj[x]->contains(b.p + b.bytes - 1))) { m.contains = false; detail("contains", std::string("contains() of resource ") + nm[x] + " is false for its live block " + num(nom(b.p)) + " after " + after); }
+      }
+  };
+  auto check_dtors = [&](int x, const std::string& what) {
+    auto& reg = content[hold[x]].registered;
+    std::vector<std::pair<long long, int>> want(reg.rbegin(), reg.rend());
+    if (g_dtor_calls != want) { m.dtor = false; detail("dtor", what + " of resource " + nm[x] + " ran " + num((long long)g_dtor_calls.size()) + " destructor calls for the " + num((long long)want.size()) + " registrations it holds (or not in reverse order)"); }
+    reg.clear();
+  };
+  while (in >> op) {
+    ++ops;
+    g_events.clear();
+    auto f = split(op, ':');
+    if (f[0] == "X" || f[0] == "Z") {
+      if (f[0] == "X") *obj[0] = std::move(*obj[1]); else *obj[1] = std::move(*obj[0]);
+      std::swap(hold[0], hold[1]);
+      ++moves;
+    } else {
+      int x = f[0] == "a" ? 0 : 1;
+      if (f[1] == "A") {
+        size_t bytes = strtoull(f[2].c_str(), 0, 10), align = strtoull(f[3].c_str(), 0, 10);
+        char* p = (char*)obj[x]->allocate(bytes, align);
+        Block b {p, bytes, align, nblocks++};
+        if (align && ((uintptr_t)p % align) != 0) { m.align = false; detail("align", "allocate returned a misaligned block"); }
+        if (!owned_by(b)) { m.owned = false; detail("owned", std::string("allocate on resource ") + nm[x] + " returned " + num(nom(p)) + " outside memory lent out by any allocator"); }
+        for (int y = 0; y < 2; ++y) for (auto& o : content[y].live) if (overlap(o.p, o.bytes, b.p, b.bytes)) { m.disjoint = false; detail("disjoint", "allocate = " + num(nom(p)) + " overlaps live block " + num(nom(o.p))); }
+        if (owned_by(b)) fill(b);
+        content[hold[x]].live.push_back(b);
+      } else if (f[1] == "G") {
+        int fn = 1 + (int)(tok % 2);
+        obj[x]->register_destructor((void*)(uintptr_t)tok, fn == 1 ? fn1 : fn2);
+        content[hold[x]].registered.push_back({tok, fn});
+        ++tok;
+      } else if (f[1] == "C") {
+        // probes are part of check_all (every live block after every op)
+      } else if (f[1] == "R") {
+        g_dtor_calls.clear();
+        obj[x]->release();
+        check_dtors(x, "release");
+        if (obj[x]->space_used() != 0 || obj[x]->space_allocated() != 0) { m.zero = false; detail("zero", "accounting not zero after release"); }
+        content[hold[x]].live.clear();
+      }
+    }
+    if (g_bad_free) m.pages = false;
+    if (g_bad_upfree || g_wrong_upstream) m.up = false;
+    check_all(op);
+  }
+  for (int k = 0; k < 2; ++k) {
+    int x = (order ? 1 - k : k);
+    g_dtor_calls.clear();
+    delete obj[x];
+    check_dtors(x, "destruction");
+    content[hold[x]].live.clear();
+    if (g_bad_free) m.pages = false;
+    if (g_bad_upfree || g_wrong_upstream) m.up = false;
+    for (int y = 0; y < 2; ++y) if (y != x && k == 0)
+      for (auto& b : content[hold[y]].live) {
+        if (!owned_by(b)) { m.owned = false; detail("owned", std::string("destroying resource ") + nm[x] + " took away memory of a live block of resource " + nm[y]); }
+        else if (!intact(b)) { m.stable = false; detail("stable", std::string("destroying resource ") + nm[x] + " scribbled a live block of resource " + nm[y]); }
+      }
+  }
+  for (RecPages* rp : {&g_pages, &g_pages2})
+    if (!rp->live.empty()) { m.pages = false; detail("pages", num((long long)rp->live.size()) + " page(s) obtained from page allocator #" + num(rp->tag) + " never returned to it, e.g. " + num(nom(rp->live.begin()->first))); }
+  for (RecUp* ru : {&g_up, &g_up2})
+    if (!ru->live.empty()) { m.up = false; detail("up", num((long long)ru->live.size()) + " oversize block(s) obtained from upstream #" + num(ru->tag) + " never returned to it, e.g. " + num(nom(ru->live.begin()->first))); }
+  size_t npages = g_pages.all.size() + g_pages2.all.size(), nover = g_up.all.size() + g_up2.all.size();
+  g_pages2.reset(); g_up2.reset();
+  finish_detail();
+  printf("%s Y PA=%zu PB=%zu ops=%d moves=%d blocks=%d pages=%zu oversize=%zu | mon_align=%d mon_owned=%d mon_disjoint=%d mon_book=%d mon_stable=%d mon_dtor=%d mon_pages=%d mon_up=%d mon_zero=%d mon_contains=%d mon_reuse=%d detail=%s\n",
+         id.c_str(), PA, PB, ops, moves, nblocks, npages, nover, m.align, m.owned, m.disjoint, m.book, m.stable, m.dtor, m.pages, m.up,
+         m.zero, m.contains, m.reuse, g_detail.c_str());
+}
+
 // ------------------------------------------------------------------ shared / swiss case
 static uint64_t mix(uint64_t& s) {
   s += 0x9E3779B97F4A7C15ull;
@@ -559,6 +667,7 @@ int main() {
       continue;
     }
     if (kind == "X") run_exclusive(id, in);
+    else if (kind == "Y") run_pair(id, in);
     else if (kind == "S") run_shared<SharedMonotonicBufferResource>(id, "S", in);
     else if (kind == "W") run_shared<SwissMemoryResource>(id, "W", in);
   }
